@@ -91,6 +91,10 @@ class Ownership:
             if isinstance(f, ast.Attribute):
                 if f.attr in VIEW_METHODS:
                     return self.roots(f.value, amap, selfname, attr_alias, ci, mi, depth)
+                if f.attr == "astype" and any(k.arg == "copy" and not (isinstance(k.value, ast.Constant) and k.value.value is True)
+                                               for k in expr.keywords):
+                    # astype(.., copy=False) (or a computed flag) hands back the array itself when the dtype already matches
+                    return self.roots(f.value, amap, selfname, attr_alias, ci, mi, depth)
                 if f.attr in COPY_METHODS:
                     return set()
                 # self.helper(x): use the summary
@@ -465,6 +469,9 @@ def _state_path(e, alias):
         f = e.func
         nm = f.attr if isinstance(f, ast.Attribute) else f.id if isinstance(f, ast.Name) else None
         if isinstance(f, ast.Attribute) and nm in VIEW_METHODS:
+            return _state_path(f.value, alias)
+        if isinstance(f, ast.Attribute) and nm == "astype" and any(k.arg == "copy" and not (isinstance(k.value, ast.Constant) and k.value.value is True)
+                                                                    for k in e.keywords):
             return _state_path(f.value, alias)
         ms = alias.get("@methods")
         if ms and isinstance(f, ast.Attribute) and isinstance(f.value, ast.Name) and alias.get(f.value.id) == {"self"} \
